@@ -327,6 +327,46 @@ theorem C03_winScalar_lt (bits r w seed i : ℕ) (hnb : 1 ≤ computeNbChunks bi
   have h4 := Nat.div_mul_le_self r (2 ^ (w * nb))
   omega
 
+theorem winSum_window (w : ℕ) (d : ℕ → ℕ) : ∀ m, (∀ j, j < m → d j < 2 ^ w) → ∀ j, j < m →
+    (winSum w d m / 2 ^ (w * j)) % 2 ^ w = d j
+  | 0, _, j, hj => by omega
+  | m+1, h, j, hj => by
+    have hlt := winSum_lt w d m (fun j hj => h j (by omega))
+    rw [winSum]
+    rcases Nat.lt_or_ge j m with hjm | hjm
+    · have ih := winSum_window w d m (fun j hj => h j (by omega)) j hjm
+      obtain ⟨t, ht⟩ : ∃ t, m = j + 1 + t := ⟨m - (j + 1), by omega⟩
+      have e : d m * 2 ^ (w * m) = 2 ^ (w * j) * (2 ^ w * (d m * 2 ^ (w * t))) := by
+        rw [ht]; ring
+      rw [e, Nat.add_mul_div_left _ _ (by positivity), Nat.add_mul_mod_self_left, ih]
+    · have hje : j = m := by omega
+      subst hje
+      rw [Nat.add_mul_div_right _ _ (by positivity), Nat.div_eq_of_lt hlt, Nat.zero_add,
+        Nat.mod_eq_of_lt (h j (by omega))]
+
+/-- the `w`-bit window `j` of a scalar of the family IS the prescribed value `winDigit … j` (so the boundary values, the carry
+into the top window and the clipped top values are really reached), for every order `r < 2^(w·nb)` -/
+theorem C03_winScalar_window (bits r w seed i j : ℕ) (hnb : 1 ≤ computeNbChunks bits w)
+    (hr : r < 2 ^ (w * computeNbChunks bits w)) (hj : j < computeNbChunks bits w) :
+    (winScalar bits r w seed i / 2 ^ (w * j)) % 2 ^ w =
+      winDigit w (computeNbChunks bits w) (r / 2 ^ (w * (computeNbChunks bits w - 1))) seed i j := by
+  unfold winScalar
+  dsimp only
+  obtain ⟨nb, hnbe⟩ : ∃ nb, computeNbChunks bits w = nb + 1 := ⟨computeNbChunks bits w - 1, by omega⟩
+  rw [hnbe] at hr hj ⊢
+  simp only [Nat.add_sub_cancel]
+  apply winSum_window w _ (nb + 1) _ j hj
+  intro k hk
+  unfold winDigit
+  dsimp only
+  have htop : r / 2 ^ (w * nb) < 2 ^ w := by
+    apply Nat.div_lt_of_lt_mul
+    rw [← pow_add, ← Nat.mul_succ]; exact hr
+  have hpos : 0 < 2 ^ w := Nat.two_pow_pos w
+  split
+  · split <;> omega
+  · split <;> exact Nat.mod_lt _ (by positivity)
+
 theorem baseTableAux_length {H : Type} (O : GOps H) (base : H) : ∀ n cur, (baseTableAux O base n cur).length = n
   | 0, _ => rfl
   | n+1, cur => by rw [baseTableAux, List.length_cons, baseTableAux_length O base n]
